@@ -47,6 +47,14 @@ if TYPE_CHECKING:
     from typing_extensions import SupportsIndex
 
 
+def _rebuild_with_fold(cls: type[DateTime], *state: Any) -> DateTime:
+    """
+    Rebuilds a pickled/copied DateTime that is the second
+    occurrence of a repeated wall time (fold=1).
+    """
+    return cls(*state, fold=1)
+
+
 class DateTime(datetime.datetime, Date):
     EPOCH: ClassVar[DateTime]
     min: ClassVar[DateTime]
@@ -1369,20 +1377,15 @@ class DateTime(datetime.datetime, Date):
             self.tzinfo,
         )
 
-    def __reduce__(
-        self,
-    ) -> tuple[
-        type[Self],
-        tuple[int, int, int, int, int, int, int, datetime.tzinfo | None],
-    ]:
+    def __reduce__(self) -> tuple[Any, ...]:
         return self.__reduce_ex__(2)
 
-    def __reduce_ex__(
-        self, protocol: SupportsIndex
-    ) -> tuple[
-        type[Self],
-        tuple[int, int, int, int, int, int, int, datetime.tzinfo | None],
-    ]:
+    def __reduce_ex__(self, protocol: SupportsIndex) -> tuple[Any, ...]:
+        if self.fold:
+            # fold is keyword-only in the constructor and cannot travel
+            # in the positional state: rebuild through a helper.
+            return _rebuild_with_fold, (self.__class__, *self._getstate(protocol))
+
         return self.__class__, self._getstate(protocol)
 
     def __deepcopy__(self, _: dict[int, Self]) -> Self:
